@@ -181,6 +181,8 @@ def run_C08(ctx, rep):
     macro_rules.check_M2(ctx, rep)
     macro_rules.check_M3(ctx, rep)
     macro_rules.check_M4(ctx, rep)
+    macro_rules.check_M5(ctx, rep)
+    rep.floor('M5', 2)
 
 
 def run_C09(ctx, rep):
